@@ -518,7 +518,10 @@ class PolygonTensor(PolytopeTensor):
                     ]
                 )
             else:
-                return list(result[self.contains(result) & other.contains(result)])
+                ind = self.contains(result) & other.contains(result)
+                if result.free_indices == 0:
+                    return [result] if ind else []
+                return list(result[ind])
 
         try:
             result = self._plane.meet(other)
@@ -531,7 +534,10 @@ class PolygonTensor(PolytopeTensor):
             result = cast(PlaneTensor, self._plane[~e.dependent_values]).meet(other)
             return list(result[PolygonCollection.from_tensor(self[~e.dependent_values]).contains(result)])
         else:
-            return list(result[self.contains(result)])
+            ind = self.contains(result)
+            if result.free_indices == 0:
+                return [result] if ind else []
+            return list(result[ind])
 
     def _normalized_projection(self) -> np.ndarray:
         points = self.array
